@@ -95,6 +95,10 @@ func (svg *SVGImage) Draw(dst backend.Canvas, width, height Fl, textContext text
 // if paint is false, only the path operations are executed, not the actual filling or drawing
 // moreover, no new graphic stack is created
 func (svg *SVGImage) drawNode(dst backend.Canvas, node *svgNode, dims drawingDims, paint bool) {
+	if hasEmptyViewbox(node) {
+		return
+	}
+
 	dims.fontSize = node.attributes.fontSize.Resolve(dims.fontSize, dims.fontSize)
 
 	paintTask := func() {
@@ -218,6 +222,14 @@ func (svg *SVGImage) drawNode(dst backend.Canvas, node *svgNode, dims drawingDim
 	} else {
 		paintTask()
 	}
+}
+
+// reports whether node is an <svg> element whose viewBox has
+// a zero width or height, which disables its rendering
+func hasEmptyViewbox(node *svgNode) bool {
+	_, isSvg := node.graphicContent.(svg)
+	vb := node.viewbox
+	return isSvg && vb != nil && (vb.Width == 0 || vb.Height == 0)
 }
 
 // vertices are the resolved vertices computed when drawing the shape
